@@ -2,7 +2,9 @@
    [sem σ f]: f is selected in σ and its sub-tree obeys the tree rules; [valid m σ]: tree rules from
    the root plus every cross-tree constraint. *)
 From Coq Require Import List Bool String ZArith.
-From FM Require Import Model.FM Model.Sem Model.Ops Proofs.C14Facts.
+From FM Require Import Base.Result Model.FM Model.Sem Model.Ops Model.PyRt Model.Loc Gen.Src_ops Gen.Src_opobj Proofs.C14Facts
+     Proofs.SrcCoreFacts Proofs.SrcTieC14.
+From Coq Require Import Permutation.
 Import ListNotations.
 Local Open Scope list_scope.
 
@@ -33,6 +35,38 @@ Theorem C14_complete : forall f x,
   In x (names f) -> (forall σ, sem σ f = true -> σ x = true) -> In x (map name (core_features f)).
 Proof. exact core_complete. Qed.
 Print Assumptions C14_complete.
+
+(* ---- the same about the TRANSLATED SOURCE of get_core_features (the work-list loop the code runs;
+   Gen/Src_ops.v, regenerated on every run; DESIGN §10) ---- *)
+Theorem C14_source_is_model : forall m fuel, (fuel_tree (root m) <= fuel)%nat ->
+  exists l, py_get_core_features fuel m = Ok l /\ Permutation (map fst l) (core_features (root m)).
+Proof. exact src_get_core_features. Qed.
+Print Assumptions C14_source_is_model.
+
+Theorem C14_source_sound : forall m fuel σ, (fuel_tree (root m) <= fuel)%nat -> valid m σ = true ->
+  exists l, py_get_core_features fuel m = Ok l /\ forall x, In x l -> σ (name (fst x)) = true.
+Proof. exact source_core_sound. Qed.
+Print Assumptions C14_source_sound.
+
+Theorem C14_source_once_root : forall m fuel, (fuel_tree (root m) <= fuel)%nat -> NoDup (names (root m)) ->
+  exists l, py_get_core_features fuel m = Ok l /\ NoDup (map (fun x => name (fst x)) l)
+            /\ In (root m) (map fst l).
+Proof. exact source_core_once. Qed.
+Print Assumptions C14_source_once_root.
+
+Theorem C14_source_complete : forall m fuel x, (fuel_tree (root m) <= fuel)%nat ->
+  NoDup (names (root m)) -> Forall rel_sane (subrelations (root m)) -> In x (names (root m)) ->
+  (forall σ, sem σ (root m) = true -> σ x = true) ->
+  exists l, py_get_core_features fuel m = Ok l /\ In x (map (fun y => name (fst y)) l).
+Proof. exact source_core_complete. Qed.
+Print Assumptions C14_source_complete.
+
+(* the operation object, whatever it executed before *)
+Theorem C14_source_object : forall m fuel s σ, (fuel_tree (root m) <= fuel)%nat -> valid m σ = true ->
+  exists st, py_FMCoreFeatures_execute fuel s m = Ok st /\
+             forall x, In x (py_FMCoreFeatures_get_result st) -> σ (name (fst x)) = true.
+Proof. exact source_core_object. Qed.
+Print Assumptions C14_source_object.
 
 Definition ex14 : feature :=
   Feature (mk_info "R")
